@@ -599,4 +599,178 @@ theorem numberLiteral_total (s : List Char) (h : isNumberAny s = true) : ¬ (num
       · right; right; right; exact h'
 
 
+theorem closes_self (q : Char) (n : Nat) (rest : List Char) :
+    closes q n (q :: List.replicate n '#' ++ rest) = true := by
+  unfold closes
+  have : (q :: List.replicate n '#' ++ rest) = (q :: List.replicate n '#') ++ rest := by simp
+  rw [this]
+  exact List.isPrefixOf_iff_prefix.mpr (List.prefix_append _ _)
+
+theorem drop_self (q : Char) (n : Nat) (rest : List Char) :
+    (q :: List.replicate n '#' ++ rest).drop (n + 1) = rest := by
+  simp [List.drop_append]
+
+/-- raw scanning: if the closing delimiter does not occur at any position inside `t`, the inner text is `t` -/
+theorem scanInner_raw (q : Char) (n : Nat) (t rest : List Char) (fuel : Nat) (hf : t.length < fuel)
+    (tail : List Char) (htail : closes q n tail = true) (hdrop : tail.drop (n + 1) = rest)
+    (h : ∀ i, i < t.length → closes q n (t.drop i ++ tail) = false) :
+    scanInner q n true fuel (t ++ tail) = some (t, rest) := by
+  induction t generalizing fuel with
+  | nil =>
+    cases fuel with
+    | zero => omega
+    | succ f =>
+      simp only [List.nil_append, scanInner]
+      rw [if_pos htail, hdrop]
+  | cons c cs ih =>
+    cases fuel with
+    | zero => omega
+    | succ f =>
+      have h0 := h 0 (by simp)
+      simp only [List.drop_zero] at h0
+      simp only [List.cons_append] at h0 ⊢
+      unfold scanInner
+      rw [if_neg (by simpa using h0)]
+      simp only [Bool.not_true, Bool.false_and, Bool.false_eq_true, if_false]
+      rw [ih f (by simpa using hf) (by
+        intro i hi
+        have := h (i + 1) (by simpa using hi)
+        simpa using this)]
+      rfl
+
+/-- scanning with escapes: the same, when `t` has no backslash either -/
+theorem scanInner_plain (q : Char) (n : Nat) (t rest : List Char) (fuel : Nat) (hf : t.length < fuel)
+    (hb : ∀ c ∈ t, c ≠ '\\')
+    (tail : List Char) (htail : closes q n tail = true) (hdrop : tail.drop (n + 1) = rest)
+    (h : ∀ i, i < t.length → closes q n (t.drop i ++ tail) = false) :
+    scanInner q n false fuel (t ++ tail) = some (t, rest) := by
+  induction t generalizing fuel with
+  | nil =>
+    cases fuel with
+    | zero => omega
+    | succ f =>
+      simp only [List.nil_append, scanInner]
+      rw [if_pos htail, hdrop]
+  | cons c cs ih =>
+    cases fuel with
+    | zero => omega
+    | succ f =>
+      have h0 := h 0 (by simp)
+      simp only [List.drop_zero] at h0
+      simp only [List.cons_append] at h0 ⊢
+      unfold scanInner
+      rw [if_neg (by simpa using h0)]
+      have hc : c ≠ '\\' := hb c (by simp)
+      simp only [Bool.not_false, Bool.true_and, decide_eq_true_eq, hc, if_false]
+      rw [ih f (by simpa using hf) (fun d hd => hb d (by simp [hd])) (by
+        intro i hi
+        have := h (i + 1) (by simpa using hi)
+        simpa using this)]
+      rfl
+
+/-- no quote character in the text: the delimiter cannot occur inside it, whatever the fence -/
+theorem no_close_of_not_mem (q : Char) (n : Nat) (t tail : List Char) (hq : q ∉ t) :
+    ∀ i, i < t.length → closes q n (t.drop i ++ tail) = false := by
+  intro i hi
+  have hne : t.drop i ≠ [] := by simp; omega
+  obtain ⟨c, cs, hcs⟩ := List.exists_cons_of_ne_nil hne
+  have hc : c ∈ t := List.mem_of_mem_drop (by rw [hcs]; simp)
+  rw [hcs]
+  unfold closes
+  simp only [List.cons_append, List.isPrefixOf, Bool.and_eq_false_imp, beq_iff_eq]
+  intro e
+  subst e
+  exact absurd hc hq
+
+
+def isQuote (q : Char) : Prop := q = '"' ∨ q = '\''
+
+theorem takeWhile_hash (n : Nat) (q : Char) (l : List Char) (hq : q ≠ '#') :
+    (List.replicate n '#' ++ q :: l).takeWhile (· = '#') = List.replicate n '#' := by
+  induction n with
+  | zero => simp [List.takeWhile, hq]
+  | succ k ih => simp [List.replicate_succ, List.takeWhile, ih]
+
+theorem dropWhile_hash (n : Nat) (q : Char) (l : List Char) (hq : q ≠ '#') :
+    (List.replicate n '#' ++ q :: l).dropWhile (· = '#') = q :: l := by
+  induction n with
+  | zero => simp [List.dropWhile, hq]
+  | succ k ih => simp [List.replicate_succ, List.dropWhile, ih]
+
+/-- the value of the literal `#…# q t q #…#` (raw: with the prefix `r`), given that the closing delimiter does
+not occur inside `t` -/
+theorem parseLiteral_raw (q : Char) (hq : isQuote q) (n : Nat) (t : List Char)
+    (h : ∀ i, i < t.length → closes q n (t.drop i ++ (q :: List.replicate n '#')) = false) :
+    parseLiteral ('r' :: (List.replicate n '#' ++ q :: (t ++ q :: List.replicate n '#'))) = some (.ok t, []) := by
+  have hq' : q ≠ '#' := by rcases hq with rfl | rfl <;> decide
+  unfold parseLiteral
+  have hr : isRawPrefix ('r' :: (List.replicate n '#' ++ q :: (t ++ q :: List.replicate n '#'))) = true := rfl
+  simp only [hr, if_true, List.drop_succ_cons, List.drop_zero, takeWhile_hash n q _ hq', dropWhile_hash n q _ hq',
+    List.length_replicate]
+  have hqq : (q = '"' || q = '\'') = true := by rcases hq with rfl | rfl <;> decide
+  rw [if_pos hqq]
+  have := scanInner_raw q n t [] ((t ++ q :: List.replicate n '#').length + 1) (by simp; omega)
+    (q :: List.replicate n '#') (by simpa using closes_self q n []) (by simp) h
+  rw [this]
+  rfl
+
+theorem parseLiteral_plain (q : Char) (hq : isQuote q) (n : Nat) (t : List Char)
+    (hb : ∀ c ∈ t, c ≠ '\\')
+    (h : ∀ i, i < t.length → closes q n (t.drop i ++ (q :: List.replicate n '#')) = false) :
+    parseLiteral (List.replicate n '#' ++ q :: (t ++ q :: List.replicate n '#')) = some (.ok t, []) := by
+  have hq' : q ≠ '#' := by rcases hq with rfl | rfl <;> decide
+  have hqr : q ≠ 'r' := by rcases hq with rfl | rfl <;> decide
+  have hraw : isRawPrefix (List.replicate n '#' ++ q :: (t ++ q :: List.replicate n '#')) = false := by
+    cases n with
+    | zero =>
+      simp only [List.replicate_zero, List.nil_append]
+      unfold isRawPrefix
+      split
+      · rename_i heq; cases heq; exact absurd rfl hqr
+      · rfl
+    | succ k =>
+      simp only [List.replicate_succ, List.cons_append]
+      rfl
+  unfold parseLiteral
+  simp only [hraw, Bool.false_eq_true, if_false, takeWhile_hash n q _ hq', dropWhile_hash n q _ hq',
+    List.length_replicate]
+  have hqq : (q = '"' || q = '\'') = true := by rcases hq with rfl | rfl <;> decide
+  rw [if_pos hqq]
+  have := scanInner_plain q n t [] ((t ++ q :: List.replicate n '#').length + 1) (by simp; omega) hb
+    (q :: List.replicate n '#') (by simpa using closes_self q n []) (by simp) h
+  rw [this]
+  simp only [Option.map_some]
+  rw [applyEscapesAux_plain _ t hb (Nat.le_succ _) |> (fun e => (by unfold applyEscapes; exact e : applyEscapes t = .ok t))]
+
+/-- inside a fence of at least one `#`, a quote that is not directly followed by `#` does not close the literal -/
+theorem no_close_of_fence (q : Char) (hq : isQuote q) (n : Nat) (hn : 1 ≤ n) (t : List Char)
+    (h : ∀ i, t[i]? = some q → t[i + 1]? ≠ some '#') :
+    ∀ i, i < t.length → closes q n (t.drop i ++ (q :: List.replicate n '#')) = false := by
+  have hq' : q ≠ '#' := by rcases hq with rfl | rfl <;> decide
+  intro i hi
+  obtain ⟨k, rfl⟩ : ∃ k, n = k + 1 := ⟨n - 1, by omega⟩
+  have hd : t.drop i = t[i] :: t.drop (i + 1) := by
+    rw [List.drop_eq_getElem_cons hi]
+  rw [hd]
+  unfold closes
+  simp only [List.replicate_succ, List.cons_append, List.isPrefixOf, Bool.and_eq_false_imp, beq_iff_eq]
+  intro e
+  have hqi : t[i]? = some q := by rw [List.getElem?_eq_getElem hi, e]
+  have hnext := h i hqi
+  -- the character after the quote
+  by_cases hlast : i + 1 < t.length
+  · have hd2 : t.drop (i + 1) = t[i + 1] :: t.drop (i + 2) := by rw [List.drop_eq_getElem_cons hlast]
+    rw [hd2]
+    simp only [List.cons_append, List.isPrefixOf, Bool.and_eq_false_imp, beq_iff_eq]
+    intro e2
+    exfalso
+    apply hnext
+    rw [List.getElem?_eq_getElem hlast, ← e2]
+  · have : t.drop (i + 1) = [] := by simp; omega
+    rw [this]
+    simp only [List.nil_append, List.isPrefixOf, Bool.and_eq_false_imp, beq_iff_eq]
+    intro e2
+    exact absurd e2.symm hq'
+
+
 end XrayModel.Lex
